@@ -147,6 +147,9 @@ type world struct {
 	hasOpening bool
 	opened     bool
 	openVA     int64
+	// replies of earlier raw forwards / extensions, as handed out and as they were at that moment: what a caller
+	// got back is the caller's, a later call does not rewrite it
+	kept []keptReply
 }
 
 const critName = "touchless-sudo-hosts"
@@ -660,6 +663,21 @@ func (w *world) waitLapse() {
 	}
 	time.Sleep(50 * time.Millisecond)
 	w.lapsed = true
+}
+
+type keptReply struct {
+	step       int
+	live, copy []byte
+}
+
+// checkKept: every reply handed out earlier still reads as it did when it was handed out.
+func (w *world) checkKept(where string) error {
+	for _, k := range w.kept {
+		if !bytes.Equal(k.live, k.copy) {
+			return Errf("%s: the reply the caller received at step %d (%d bytes, then %.24x...) now reads %.24x... - a later call rewrote memory that had been handed out", where, k.step, len(k.copy), k.copy, k.live)
+		}
+	}
+	return nil
 }
 
 func (w *world) waitOpen() {
@@ -1312,12 +1330,24 @@ func (w *world) step(i int, op Op) error {
 				return Errf("%s: reply of %d bytes differs from what the underlying agent sent (%d bytes)", where, len(reply), len(want))
 			}
 		}
+		if err := w.checkKept(where); err != nil {
+			return err
+		}
+		if len(reply) > 0 && len(w.kept) < 16 {
+			w.kept = append(w.kept, keptReply{step: i, live: reply, copy: append([]byte{}, reply...)})
+		}
 	case "extension":
 		if opErr != nil {
 			return Errf("%s failed without a fault: %v", where, opErr)
 		}
 		if len(reply) < 1 || reply[0] != ExtMark || !bytes.HasSuffix(reply, op.Body) {
 			return Errf("%s: reply does not echo the payload", where)
+		}
+		if err := w.checkKept(where); err != nil {
+			return err
+		}
+		if len(w.kept) < 16 {
+			w.kept = append(w.kept, keptReply{step: i, live: reply, copy: append([]byte{}, reply...)})
 		}
 	}
 	return nil
